@@ -56,6 +56,9 @@ theorem inv_step {H : List Nat → η} {s : Frag η} (hI : Inv H s) (op : Op) : 
   | clearValue c depth v =>
     exact inv_of_framed hI (sorted_setValueBase s c depth v true hI.sorted) (framed_setValueBase s c depth v true)
   | snapshot => exact inv_of_framed hI hI.sorted ⟨[], frame_snapshot s⟩
+  | reopen =>
+    exact ⟨hI.sorted, by intro r c h; simp [step, reopen, lookup] at h,
+      by intro b h hh; simp [step, reopen, lookup] at hh⟩
   | invalidateChecksums =>
     exact ⟨hI.sorted, hI.cache, by intro b h hh; simp [step, invalidateChecksums, lookup] at hh⟩
   | row r => exact inv_row hI r
